@@ -611,6 +611,66 @@ class BuiltinMixin:
         raise Unsupported(f'match method {name}')
 
     # ------------------------------------------------------------ comprehensions
+    def e_ListComp(self, e):
+        if len(e.generators) == 2:
+            return self.flatten_comp(e)
+        return self.comprehension_call(list, e, e)
+
+    def e_SetComp(self, e):
+        return self.comprehension_call(set, e, e)
+
+    def flatten_comp(self, e):
+        """[v for m in D.values() for v in m.values()] over a dict of dicts:
+        the result is a list in bijection with the entries (k1, k2) of D."""
+        g1, g2 = e.generators
+        ok = (not g1.ifs and not g2.ifs and isinstance(g1.target, ast.Name)
+              and isinstance(g2.target, ast.Name) and isinstance(e.elt, ast.Name)
+              and e.elt.id == g2.target.id
+              and isinstance(g1.iter, ast.Call) and isinstance(g1.iter.func, ast.Attribute)
+              and g1.iter.func.attr == 'values' and not g1.iter.args
+              and isinstance(g2.iter, ast.Call) and isinstance(g2.iter.func, ast.Attribute)
+              and g2.iter.func.attr == 'values' and not g2.iter.args
+              and isinstance(g2.iter.func.value, ast.Name) and g2.iter.func.value.id == g1.target.id)
+        if not ok:
+            raise Unsupported('nested comprehension (only the dict-of-dicts flattening is modelled)')
+        D = self.force(self.eval(g1.iter.func.value))
+        if not (D.kind.is_dict and D.kind.val.is_dict):
+            raise Unsupported(f'flattening comprehension over {D.kind}')
+        p = self.p
+        k1, inner = D.kind.key, D.kind.val
+        k2, vk = inner.key, inner.val
+        s1, s2, sv = sort_of(k1), sort_of(k2), sort_of(vk)
+        L = self.new_ref(Kind('list', (vk,)))
+        n = p.fresh('nflat', I)
+        arr = p.fresh('flat', z3.ArraySort(I, sv))
+        p.bounds[str(arr)] = p.next
+        p.assume(n >= 0)
+        self.list_set_content(L, n, arr)
+        tag = p.fresh_name('')
+        idx = z3.Function('flat_idx' + tag, s1, s2, I)
+        kp = z3.Function('flat_k1' + tag, I, s1)
+        kid = z3.Function('flat_k2' + tag, I, s2)
+        has1, vals1 = self.dict_has(D), self.dict_vals(D)
+        hasarr = self.has_arr(k2)
+        valarr = self.val_arr(k2, vk)
+        x, y, j = z3.Const('x!fl', s1), z3.Const('y!fl', s2), z3.Int('j!fl')
+
+        def inner_has(xx, yy):
+            return z3.Select(z3.Select(hasarr, z3.Select(vals1, xx)), yy)
+
+        def inner_val(xx, yy):
+            return z3.Select(z3.Select(valarr, z3.Select(vals1, xx)), yy)
+        p.assume(z3.ForAll([x, y], z3.Implies(
+            z3.And(z3.Select(has1, x), inner_has(x, y)),
+            z3.And(0 <= idx(x, y), idx(x, y) < n, z3.Select(arr, idx(x, y)) == inner_val(x, y),
+                   kp(idx(x, y)) == x, kid(idx(x, y)) == y)), patterns=[inner_has(x, y)]))
+        p.assume(z3.ForAll([j], z3.Implies(
+            z3.And(0 <= j, j < n),
+            z3.And(z3.Select(has1, kp(j)), inner_has(kp(j), kid(j)),
+                   z3.Select(arr, j) == inner_val(kp(j), kid(j)), idx(kp(j), kid(j)) == j)),
+            patterns=[z3.Select(arr, j)]))
+        return L
+
     def comprehension_call(self, fn, comp, node):
         """any/all/sum/set/list(... for x in <symbolic or concrete iterable> [if c])."""
         if len(comp.generators) != 1:
